@@ -13,6 +13,7 @@ import (
 	"path/filepath"
 	"sort"
 	"strings"
+	"sync/atomic"
 	"syscall"
 )
 
@@ -26,6 +27,8 @@ type mutation struct {
 	class, class2 string
 	mi            int
 }
+
+var arbSeqCtr int64
 
 func zlibOf(b []byte) []byte {
 	var buf bytes.Buffer
@@ -48,13 +51,14 @@ func arbitraryFor(class string, orig []byte, rng *rand.Rand) []byte {
 			[]byte("commit 100\x00tree " + strings.Repeat("a", 40) + "\nauthor A <a@b.cd> 1 +\ncommitter A <a@b.cd> 1 +0000\n\nm\n"),
 			[]byte("commit 100\x00tree " + strings.Repeat("a", 40) + "\nparent zz\nauthor A <a@b.cd> 1 +0000\n"),
 		}
-		switch rng.Intn(4) {
+		arbSeq := int(atomic.AddInt64(&arbSeqCtr, 1))
+		switch arbSeq % 4 {
 		case 0:
 			return rb(rng.Intn(64))
 		case 1:
 			return zlibOf(rb(rng.Intn(64)))
 		case 2:
-			return zlibOf(payloads[rng.Intn(len(payloads))])
+			return zlibOf(payloads[(arbSeq/4)%len(payloads)])
 		default:
 			p := append([]byte{}, payloads[rng.Intn(len(payloads))]...)
 			if len(p) > 0 {
@@ -173,6 +177,9 @@ func mutationsFor(rel, class string, orig []byte, rng *rand.Rand, thorough bool)
 	na := 6
 	if thorough {
 		na = 60
+	}
+	if class == "object" {
+		na = 28 // the grammar-made payloads are few: try (nearly) all of them on every object
 	}
 	for i := 0; i < na; i++ {
 		out = append(out, mutation{rel: rel, kind: "arbitrary", off: i, data: arbitraryFor(class, orig, rng)})
